@@ -18,6 +18,8 @@ GENERATORS = ("dbc", "can_c", "cpp", "nop")
 
 GOOD = {
     "can1": 'version: "3"\nenum E { a = 0, b = 2, }\nstruct A { x @0: u8, y @1: i16, e @2: E, }\nstruct B { p @0: u32, q @1: [u8, 2], }\nimpl can for A { id: 10, device: "ecu", period: 5, }\nimpl can for B { id: 11, device: "ecu", bus: "bus2", }\n',
+    # two enums: the C plug-in returns global_can.h once per enum, with the same contents each time
+    "enums2": 'version: "3"\nenum E { a = 0, b = 2, }\nenum F { p = 0, q = 1, }\nstruct A { x @0: u8, e @1: E, f @2: F, }\nimpl can for A { id: 10, device: "ecu", }\n',
     "svc": 'version: "3"\nstruct A { x @0: u8, }\nstruct R { y @0: u16, }\nimpl can for A { id: 1, device: "ecu", }\nservice Svc @0 { method get(A) @0 returns R, }\ndevice ecu { services: [Svc], }\n',
 }
 
@@ -188,7 +190,8 @@ def _returned_paths(gen_name, fcp_text, scratch):
     with contextlib.redirect_stdout(io.StringIO()):
         results = importlib.import_module("fcp_" + gen_name).Generator().generate(fcp, {"output": out, "templates": {}, "skels": {}})
     shutil.rmtree(out, ignore_errors=True)
-    return [os.path.normpath(str(r["path"])) for r in results if r.get("type") == "file"]
+    # one entry per DISTINCT (path, contents): a path returned twice with the same contents is one file
+    return [p for p, _c in sorted({(os.path.normpath(str(r["path"])), str(r["contents"])) for r in results if r.get("type") == "file"})]
 
 
 def run_generate(gen_name, fcp_text, out, verifier):
